@@ -60,6 +60,87 @@ func TestRaceC05(t *testing.T) {
 	}
 }
 
+// TestRaceC05Readers: many goroutines serving requests of every shape (parameters with backtracking,
+// infix catch-all, hostname, ignored slash, redirect, 404/405/OPTIONS, Lookup, Reverse, Iter, Clone,
+// CloneWith) while writers replace the tree.
+func TestRaceC05Readers(t *testing.T) {
+	for it := 0; it < iters()/10+1; it++ {
+		f, err := fox.New(fox.WithNoMethod(true), fox.WithAutoOptions(true))
+		if err != nil {
+			t.Fatal(err)
+		}
+		h := func(c fox.Context) {
+			for range c.Params() {
+			}
+			if c.Param("x") == "clone" {
+				_ = c.Clone()
+				cc := c.CloneWith(c.Writer(), c.Request())
+				cc.Close()
+			}
+			c.Writer().WriteHeader(200)
+		}
+		for _, p := range []string{"/a", "/a/{x}", "/a/{x}/b", "/a/*{w}/c", "/i/{x}/", "/r/{x}/", "a.b/h/{x}", "{s}.b/h", "/*{any}"} {
+			var opts []fox.RouteOption
+			if p == "/i/{x}/" {
+				opts = append(opts, fox.WithIgnoreTrailingSlash(true))
+			}
+			if p == "/r/{x}/" {
+				opts = append(opts, fox.WithRedirectTrailingSlash(true))
+			}
+			if _, err := f.Handle("GET", p, h, opts...); err != nil {
+				t.Fatal(err)
+			}
+		}
+		reqs := [][3]string{{"GET", "", "/a"}, {"GET", "", "/a/1"}, {"GET", "", "/a/clone"}, {"GET", "", "/a/1/b"}, {"GET", "", "/a/1/2/c"}, {"GET", "", "/a/1/2/d"}, {"GET", "", "/i/7"},
+			{"GET", "", "/r/7"}, {"GET", "a.b", "/h/9"}, {"GET", "x.b", "/h"}, {"POST", "", "/a"}, {"OPTIONS", "", "/a"}, {"OPTIONS", "", "*"}, {"DELETE", "", "/zzz"}}
+		var wg sync.WaitGroup
+		start := make(chan struct{})
+		for g := 0; g < 8; g++ {
+			g := g
+			wg.Add(1)
+			go func() {
+				defer wg.Done()
+				<-start
+				for k := 0; k < 40; k++ {
+					r := reqs[(g+k)%len(reqs)]
+					f.ServeHTTP(fx.NewRW(), fx.Req(r[0], r[1], r[2]))
+					if k%5 == 0 {
+						f.Reverse(r[0], r[1], r[2])
+						_, cc, _ := f.Lookup(fx.WrapRW(fx.NewRW()), fx.Req(r[0], r[1], r[2]))
+						if cc != nil {
+							cc.Close()
+						}
+						for range f.Iter().All() {
+						}
+						f.Has("GET", "/a/{x}")
+					}
+				}
+			}()
+		}
+		for g := 0; g < 2; g++ {
+			g := g
+			wg.Add(1)
+			go func() {
+				defer wg.Done()
+				<-start
+				for k := 0; k < 10; k++ {
+					p := fmt.Sprintf("/w%d/%d/{y}", g, k)
+					f.Handle("GET", p, h)
+					f.Update("GET", "/a/{x}", h)
+					f.Updates(func(txn *fox.Txn) error {
+						txn.Delete("GET", p)
+						txn.Handle("GET", p+"/z", h)
+						return nil
+					})
+					f.Delete("GET", p+"/z")
+				}
+			}()
+		}
+		close(start)
+		wg.Wait()
+	}
+}
+
 func TestRaceC13(t *testing.T) {
 	mw := func(next fox.HandlerFunc) fox.HandlerFunc { return func(c fox.Context) { next(c) } }
 	for _, globals := range []int{0, 1, 3, 5, 6} {
